@@ -41,6 +41,7 @@ RT_EXTERNALS = {
     '@isalnum': 'vp_isalnum', '@isupper': 'vp_isupper', '@islower': 'vp_islower', '@isprint': 'vp_isprint',
     '@ispunct': 'vp_ispunct', '@isblank': 'vp_isblank', '@iscntrl': 'vp_iscntrl', '@isgraph': 'vp_isgraph',
     '@tolower': 'vp_tolower', '@toupper': 'vp_toupper',
+    '@__errno_location': 'vp_errno_location', '@strerror': 'vp_strerror',
 }
 NOOP_EXTERNALS = {'@_ZNSt8ios_base4InitC1Ev', '@_ZNSt8ios_base4InitD1Ev'}
 VP_PRIMS = {'@vp_nondet', '@vp_range', '@vp_assume', '@vp_assert', '@vp_witness', '@vp_observe', '@vp_capacity',
@@ -361,7 +362,13 @@ class Emitter:
         if name in self.m.funcs:
             return '(&%s)' % self.func_cname(name)
         if name in self.split_globals:
-            raise IRError('split global %s used as a whole object' % name)
+            # address of the whole object == address of its first field (accesses beyond that field
+            # through this pointer leave the C object and are caught by CBMC's pointer checks)
+            g = self.m.globals[name]
+            r = self.resolve(g.ty)
+            self.split_fields.setdefault(name, {})[0] = r[1][0]
+            self.ct(r[1][0])
+            return '((%s*)&g_%s__f0)' % (self.ct(g.ty), san(name))
         if name in self.m.globals:
             if name not in self.seen_globals:
                 self.seen_globals.add(name)
@@ -375,6 +382,11 @@ class Emitter:
             if name not in self.m.funcs:
                 raise IRError('redirect target %s not in module' % name)
         f = self.m.funcs[name]
+        if f.defined and getattr(self, 'cut_re', None) is not None and self.cut_re.search(name) and name != self.entry:
+            if name not in self.extern_stubs:
+                self.extern_stubs[name] = f
+                self.stats.setdefault('cut', []).append(name)
+            return 'x_' + san(name)
         if f.defined:
             if name not in self.seen_funcs:
                 self.seen_funcs.add(name)
@@ -534,7 +546,7 @@ class Emitter:
         a = ins.a
         op = ins.op
         if op in ('add', 'sub', 'mul', 'udiv', 'sdiv', 'urem', 'srem', 'shl', 'lshr', 'ashr', 'and', 'or', 'xor',
-                  'fadd', 'fsub', 'fmul', 'fdiv', 'frem', 'fneg', 'select', 'load', 'phi', 'freeze', 'insertvalue'):
+                  'fadd', 'fsub', 'fmul', 'fdiv', 'frem', 'fneg', 'select', 'load', 'phi', 'freeze', 'insertvalue', 'atomicrmw'):
             return a['ty']
         if op in ('icmp', 'fcmp'):
             return ('int', 1)
@@ -580,6 +592,10 @@ class Emitter:
                 return
             if name in VP_PRIMS:
                 self.emit_prim(name, ins, out)
+                return
+            if getattr(self, 'printf_model', False) and name in ('@snprintf', '@sprintf', '@fprintf', '@printf') \
+                    and not self.m.funcs[name].defined:
+                self.emit_printf(name, ins, out)
                 return
             if name not in self.redirect and (name in self.noop or (
                     self.noop_re is not None and name in self.m.funcs and not self.m.funcs[name].defined
@@ -671,6 +687,86 @@ class Emitter:
         elif name == '@vp_stop':
             out.append('VP_STOP();')
 
+    def emit_printf(self, name, ins, out):
+        """printf family with a constant format: expanded at translation time into calls of the
+        formatter model the harness defines (vp_fmt_*). Any conversion outside the supported set
+        is an IRError (the check is then inconclusive, never silently wrong)."""
+        args = ins.a['args']
+        res = ('v_' + san(ins.res)) if ins.res else None
+
+        def A(i):
+            return self.val(args[i][0], args[i][1])
+        if name == '@snprintf':
+            out.append('%s((uint8_t*)%s, (uint64_t)%s);' % (self.func_cname('@vp_fmt_open_buf'), A(0), A(1)))
+            fi = 2
+        elif name == '@sprintf':
+            out.append('%s((uint8_t*)%s, (uint64_t)0xffffffffULL);' % (self.func_cname('@vp_fmt_open_buf'), A(0)))
+            fi = 1
+        elif name == '@fprintf':
+            out.append('%s((uint8_t*)%s);' % (self.func_cname('@vp_fmt_open_file'), A(0)))
+            fi = 1
+        else:
+            out.append('%s((uint8_t*)0);' % self.func_cname('@vp_fmt_open_file'))
+            fi = 0
+        fmt = self.const_str_arg(args[fi][0], args[fi][1])
+        if fmt is None:
+            raise IRError('printf-family call with a non-constant format: ' + ins.text[:120])
+        ai = fi + 1
+        pos = 0
+        lit = ''
+
+        def flush():
+            nonlocal lit
+            if lit:
+                out.append('%s((uint8_t*)%s);' % (self.func_cname('@vp_fmt_str'), json.dumps(lit)))
+                lit = ''
+        for m in re.finditer(r'%(%|(?P<flags>[0-]*)(?P<width>\d+|\*)?(?:\.(?P<prec>\d+|\*))?(?P<len>l|ll|z|h|hh)?(?P<conv>[sdiuxXc]))', fmt):
+            lit += fmt[pos:m.start()]
+            pos = m.end()
+            if m.group(1) == '%':
+                lit += '%'
+                continue
+            flush()
+            conv = m.group('conv')
+            width = m.group('width') or '0'
+            if width == '*':
+                width = '(int32_t)' + A(ai)
+                ai += 1
+            zero = '1' if '0' in (m.group('flags') or '') else '0'
+            if '-' in (m.group('flags') or ''):
+                raise IRError('printf flag - unsupported: ' + fmt)
+            if conv == 's':
+                if m.group('prec') == '*':
+                    n = '(int32_t)' + A(ai)
+                    ai += 1
+                elif m.group('prec'):
+                    n = m.group('prec')
+                else:
+                    n = '-1'
+                out.append('%s((uint8_t*)%s, (uint32_t)(%s), (uint32_t)(%s));' % (self.func_cname('@vp_fmt_strn'), A(ai), n, width))
+                ai += 1
+            elif conv == 'c':
+                out.append('%s((uint32_t)%s);' % (self.func_cname('@vp_fmt_char'), A(ai)))
+                ai += 1
+            else:
+                aty = self.resolve(args[ai][0])
+                v = A(ai)
+                if conv in 'di':
+                    v = '(uint64_t)(int64_t)' + self.sext_to_storage(aty[1], v)
+                    sg = '1'
+                else:
+                    v = '(uint64_t)' + v
+                    sg = '0'
+                base = '16' if conv in 'xX' else '10'
+                out.append('%s(%s, (uint32_t)%s, (uint32_t)(%s), (uint32_t)%s, (uint32_t)%s);'
+                           % (self.func_cname('@vp_fmt_int'), v, sg, width, zero, base))
+                ai += 1
+        lit += fmt[pos:]
+        if '%' in re.sub(r'%(%|[0-]*(\d+|\*)?(?:\.(\d+|\*))?(l|ll|z|h|hh)?[sdiuxXc])', '', fmt):
+            raise IRError('unsupported printf conversion in ' + repr(fmt))
+        flush()
+        out.append('%s%s();' % ((res + ' = ') if res else '', self.func_cname('@vp_fmt_close')))
+
     def emit_intrinsic(self, name, ins, out):
         a = ins.a
         args = a['args']
@@ -759,11 +855,12 @@ class Emitter:
                 out.append('%s = (%s == 0) ? %s : (%s)(((%s)%s << (%d - %s)) | ((%s)%s >> %s));' % (res, sh, y, T, T, x, bits, sh, T, y, sh))
             return
         if base.startswith('va_start') or base.startswith('va_end') or base.startswith('va_copy'):
-            raise IRError('variadic function bodies are not translated (stub the function): ' + ins.text[:100])
+            raise IRError('variadic function bodies are not translated (cut or stub the function %s): ' % getattr(self, 'cur_func', '?') + ins.text[:100])
         raise IRError('unsupported intrinsic ' + name)
 
     def emit_function(self, name):
         f = self.m.funcs[name]
+        self.cur_func = name
         cname = 'f_' + san(name)
         entry_label = str(sum(1 for (pty, pn, info) in f.params if pn is None or re.fullmatch(r'%\d+', pn)))
         # parse instructions
@@ -855,6 +952,18 @@ class Emitter:
                     body.append('%s = *%s;' % (r, self.val(a['pty'], a['p'])))
                 elif op == 'store':
                     body.append('*%s = %s;' % (self.val(a['pty'], a['p']), self.val(a['ty'], a['x'])))
+                elif op == 'fence':
+                    pass
+                elif op == 'atomicrmw':
+                    pe = self.val(a['pty'], a['p'])
+                    xe = self.val(a['ty'], a['x'])
+                    if a['aop'] == 'xchg':
+                        newv = xe
+                    elif a['aop'] in ('add', 'sub', 'and', 'or', 'xor'):
+                        newv = self.bin_expr(a['aop'], a['ty'], '(*%s)' % pe, xe)
+                    else:
+                        raise IRError('atomicrmw ' + a['aop'])
+                    body.append('%s = *%s; *%s = %s;' % (r, pe, pe, newv.replace('(*%s)' % pe, r)))
                 elif op == 'getelementptr':
                     e, rt = self.gep_expr(a['sty'], a['pty'], a['p'], a['idx'])
                     body.append('%s = %s;' % (r, e))
@@ -889,7 +998,7 @@ class Emitter:
                     raise IRError('cannot translate %s in %s: %s' % (op, name, ins.text[:160]))
         ps = ', '.join('%s v_%s' % (self.ct(pty), san(pn)) for (pty, pn) in params)
         if f.vararg:
-            raise IRError('variadic function definition %s (stub or redirect it)' % name)
+            ps += ', ...'   # body may not use va_start (emit_intrinsic rejects it)
         hdr = 'static %s %s(%s)' % (self.ct(f.ret), cname, ps or 'void')
         self.stats['functions'].append(name)
         return hdr, hdr + '\n{\n  ' + '\n  '.join(decls) + '\n  ' + '\n  '.join(body) + '\n}\n'
@@ -1048,6 +1157,9 @@ def main():
     ap.add_argument('--stats')
     ap.add_argument('--noop-re')
     ap.add_argument('--split-global', action='append', default=[])
+    ap.add_argument('--printf-model', action='store_true')
+    ap.add_argument('--cut-re', help='defined functions whose name matches are NOT translated: they become flagged stubs')
+    ap.add_argument('--keep', action='append', default=[])
     a = ap.parse_args()
     try:
         mod = parse_module(open(a.inp).read())
@@ -1057,6 +1169,8 @@ def main():
             red['@' + x] = '@' + y
         em = Emitter(mod, '@' + a.entry, red, ['@' + n for n in a.noop], a.noop_re)
         em.split_globals = set('@' + g for g in a.split_global if ('@' + g) in mod.globals)
+        em.printf_model = a.printf_model
+        em.cut_re = re.compile(a.cut_re) if a.cut_re else None
         code = em.run()
     except IRError as e:
         sys.stderr.write('ir2c: UNSUPPORTED: %s\n' % e)
